@@ -11,10 +11,11 @@ Theorem reduce_minmax_shortcut_refuted_pre :
     k_reduce_minmax true true PMax 1 x <> rows_iter 1 (sem (FReduce PMax)) x.
 Proof. exists (Arr TNum [3%nat] [ENum 1; ENum 2; ENum 3]). repeat split; vm_compute; congruence. Qed.
 
-(** inventory of a purely pervasive operand is not an inventory at all: nothing is boxed *)
-Theorem inventory_pervasive_refuted :
+(** before commit f64950a: inventory of a purely pervasive operand was no inventory at all,
+    nothing was boxed (`⍚¯ [1 2]` gave [¯1 ¯2]) *)
+Theorem inventory_pervasive_refuted_pre :
   exists f x, wf x /\ ash x = [2%nat] /\
-    exec_inventory f x <> inventory_def (sem f) x.
+    exec_inventory true f x <> inventory_def (sem f) x.
 Proof. exists (FPerv PNeg), (Arr TNum [2%nat] [ENum 1; ENum 2]). repeat split; vm_compute; congruence. Qed.
 
 (** generic reduce under rows, on rows that are scalars: a spurious length-1 axis *)
@@ -35,14 +36,14 @@ Theorem first_depth_empty_refuted :
     exists y, sem (rowsk 1 FFirst) x = Ok y /\ ash y = [0%nat].
 Proof. exists (Arr TNum [0%nat; 0%nat] []). repeat split; try (vm_compute; reflexivity). eexists; split; vm_compute; reflexivity. Qed.
 
-(** box at depth 2 over empty rows: as many boxes as the FIRST axis is long, not one per cell *)
-Theorem box_depth_empty_rows_refuted :
-  exists x y, wf x /\ first_zero (firstn 2 (ash x)) = None /\
-    exec_mfn (rowsk 2 FBox) x = Ok y /\ ~ wf y /\ sem (rowsk 2 FBox) x <> Ok y.
+(** before commit 3374592: box at depth 2 over empty rows made as many boxes as the FIRST axis is
+    long, not one per cell (`≡≡□ ↯2_3_0 0`: shape 2x3 with 2 boxes) *)
+Theorem box_depth_empty_rows_refuted_pre :
+  exists x, wf x /\ first_zero (firstn 2 (ash x)) = None /\
+    ~ wf (k_box true 2 x) /\ Ok (k_box true 2 x) <> sem (rowsk 2 FBox) x.
 Proof.
-  exists (Arr TNum [2%nat; 3%nat; 0%nat] []). eexists. split; [vm_compute; reflexivity|].
-  split; [vm_compute; reflexivity|]. split; [vm_compute; reflexivity|].
-  split; vm_compute; congruence.
+  exists (Arr TNum [2%nat; 3%nat; 0%nat] []). split; [vm_compute; reflexivity|].
+  split; [vm_compute; reflexivity|]. split; vm_compute; congruence.
 Qed.
 
 (* ================================================================== kernels under theorems *)
@@ -72,17 +73,26 @@ Proof.
   - rewrite k_fix_bk, run_bk_rows_iter by auto. apply rows_iter_ext; auto. apply fix_bk0.
 Qed.
 
-(** box: the repaired slicing is under the theorem unconditionally, the current one wherever
-    it does not hit the empty-rows quirk (box_depth_empty_rows_refuted) *)
+(** box: the current slicing (commit 3374592) is under the theorem unconditionally; the old one
+    only where it did not hit the empty-rows quirk (box_depth_empty_rows_refuted_pre) *)
 Theorem box_kernel_eq_fixed : forall d x, wf x -> lead_pos d (ash x) ->
   Ok (k_box_fixed d x) = rows_iter d (sem FBox) x.
 Proof.
   intros d x W L. rewrite k_box_fixed_bk, run_bk_rows_iter by auto. apply rows_iter_ext; auto. apply box_bk0.
 Qed.
 Theorem box_kernel_eq : forall d x, wf x -> lead_pos d (ash x) ->
-  (prodn (skipn (dmin d x) (ash x)) <> 0 \/ dmin d x <= 1) ->
   run_katom KBox d x = rows_iter d (sem FBox) x.
-Proof. intros d x W L H. cbn [run_katom]. rewrite k_box_eq_fixed by auto. apply box_kernel_eq_fixed; auto. Qed.
+Proof. intros d x W L. cbn [run_katom]. rewrite k_box_eq_fixed by auto. apply box_kernel_eq_fixed; auto. Qed.
+Theorem box_kernel_eq_pre : forall d x, wf x -> lead_pos d (ash x) ->
+  (prodn (skipn (dmin d x) (ash x)) <> 0 \/ dmin d x <= 1) ->
+  Ok (k_box true d x) = rows_iter d (sem FBox) x.
+Proof. intros d x W L H. rewrite k_box_pre_eq_fixed by auto. apply box_kernel_eq_fixed; auto. Qed.
+(** the boxed result is a valid array again (C05) *)
+Theorem box_kernel_wf : forall d x, wf x -> wf (k_box false d x).
+Proof.
+  intros d x W. rewrite k_box_eq_fixed by auto. unfold k_box_fixed, wf.
+  destruct (dmin d x) eqn:E; [reflexivity|]. cbn [adata ash]. rewrite map_length, blocks_count. reflexivity.
+Qed.
 
 (** over an empty mapped axis: the shape-only kernels succeed and keep the mapped lengths *)
 Theorem kernel_empty_lead : forall a, In a [KId; KRev; KDeshape; KFix] ->
@@ -156,3 +166,56 @@ Qed.
 Theorem reduce_minmax_shortcut_repaired : forall su o d x,
   k_reduce_minmax false su o (S d) x = k_reduce_num o (S d) x.
 Proof. intros. unfold k_reduce_minmax. cbn [orb Nat.eqb andb]. destruct o; reflexivity. Qed.
+
+(* ================================================================== inventory after commit f64950a *)
+
+Lemma seq_sem_nonok l r : (forall a, r <> Ok a) ->
+  fold_left (fun r f => y <- r ;; sem f y) l r = r.
+Proof. revert r; induction l; intros r H; cbn [fold_left]; auto. destruct r; try (exfalso; eapply H; reflexivity); cbn [bind]; apply IHl; congruence. Qed.
+Lemma seq_sem_app l1 l2 x : seq_sem (l1 ++ l2) x = (y <- seq_sem l1 x ;; seq_sem l2 y).
+Proof.
+  unfold seq_sem. rewrite fold_left_app.
+  destruct (fold_left (fun r f => y <- r ;; sem f y) l1 (Ok x)) eqn:E; cbn [bind]; auto; apply seq_sem_nonok; congruence.
+Qed.
+Lemma seq_sem_flatten f x : seq_sem (flatten f) x = sem f x.
+Proof.
+  revert x; induction f; intros x; try reflexivity.
+  cbn [flatten sem]. rewrite seq_sem_app, IHf1. destruct (sem f1 x); cbn [bind]; auto.
+Qed.
+
+Lemma split_perv_all l : forallb is_perv l = true -> split_perv l = ([], rev l).
+Proof.
+  induction l; intros H; cbn in *; auto. apply andb_true_iff in H. destruct H as [Ha Ht].
+  rewrite Ha, (IHl Ht). reflexivity.
+Qed.
+
+Lemma in_boxes_inventory G x :
+  (y <- inventory_def (fun a => Ok a) x ;; in_boxes G y) = inventory_def G x.
+Proof.
+  unfold inventory_def. destruct (ash x) as [|n s].
+  - cbn [bind]. unfold in_boxes, p_box. cbn [aty adata mapM ash].
+    destruct (unbox_row x) as [t sh d]. cbn [aty ash adata]. destruct (G (Arr t sh d)); reflexivity.
+  - rewrite (mapM_ok_map unbox_row). cbn [bind]. unfold in_boxes. cbn [aty adata ash].
+    rewrite !mapM_map.
+    rewrite (mapM_ext_in _ (fun r => z <- (fun r => G (unbox_row r)) r ;; Ok (box_elem z))).
+    2:{ intros r _. unfold box_elem. destruct (unbox_row r); reflexivity. }
+    rewrite (mapM_wrap (fun r => G (unbox_row r)) box_elem).
+    destruct (mapM (fun r => G (unbox_row r)) (rows x)) as [rs| |] eqn:E; cbn [bind]; auto.
+    apply mapM_length in E. rewrite !map_length, E. reflexivity.
+Qed.
+
+Lemma inventory_def_ext F G x : (forall y, F y = G y) -> inventory_def F x = inventory_def G x.
+Proof.
+  intros H. unfold inventory_def. destruct (ash x); [rewrite H; reflexivity|].
+  rewrite (mapM_ext_in _ (fun r => G (unbox_row r))); auto.
+Qed.
+
+(** the current compile-time split keeps inventory's boxing: for a purely pervasive operand the
+    interpreter's inventory IS the definition (for every array, empty ones and scalars included) *)
+Theorem inventory_pervasive_boxes : forall f x, forallb is_perv (rev (flatten f)) = true ->
+  exec_inventory false f x = inventory_def (sem f) x.
+Proof.
+  intros f x H. unfold exec_inventory. rewrite (split_perv_all _ H), rev_involutive.
+  change (seq_sem []) with (fun a : arr => Ok a). rewrite in_boxes_inventory.
+  apply inventory_def_ext. intros; apply seq_sem_flatten.
+Qed.
